@@ -107,6 +107,10 @@ class _Canon(ast.NodeTransformer):
 
     def visit_BinOp(self, n):
         self.generic_visit(n)
+        # N7: on the Python side (no C type, no cdivision) `a // b` is floor(a / b); the compiled side writes floor(a / b) explicitly
+        if isinstance(n.op, ast.FloorDiv) and not hasattr(n, "ctype") and not getattr(n, "cdivision", False):
+            return ast.Call(func=ast.Name(id="floor", ctx=ast.Load()),
+                            args=[ast.BinOp(left=n.left, op=ast.Div(), right=n.right)], keywords=[])
         # N5: (x - k) % m  =  (x + (m - k mod m)) % m   for integer constants, m > 0 (floor semantics; the C side's
         # dividend is shown non-negative by R13.2)
         if isinstance(n.op, ast.Mod) and isinstance(n.right, ast.Constant) and isinstance(n.right.value, int) and n.right.value > 0 \
